@@ -379,6 +379,7 @@ PROPS = {
         "level": "proof",
         "falsifier": ["statics"],
         "case_prefixes": ["c02_"],
+        "known_cases": ["c02_fragment_before_query"],   # known finding (dependency): known_findings.txt
         "counts": counts_for("C02"),
         "samples": [
             "StaticResourceController::is_matching / postcondition / res == static_match(method, target): the documented lookup (file, else directory index, else .html) on the path of the parsed target",
